@@ -13,7 +13,7 @@ from elfi.methods.utils import weighted_sample_quantile, weighted_var
 compat.install_float_shim()
 
 META = dict(
-    rule='a case = (prior family uniform / normal / hierarchical normal-on-uniform in 1-2 dimensions, seed, batch size, '
+    rule='a case = (prior family uniform / normal / hierarchical normal-on-uniform / scale-parent / a user-written bounded Distribution class with pdf only, in 1-2 dimensions, seed, batch size, '
          'population size, a HISTORY of 1-2 sample() calls on one sampler each with a threshold list or a quantile list of 1-3 '
          'rounds). Non-trivial = >= 2 rounds in total; distinct by content',
     trusted_base=['scipy.stats for the prior densities and for the normal components of the mixture (diagonal covariance)',
@@ -37,9 +37,23 @@ def wq_ref(x, alpha, w):
     return float(x[order][k])
 
 
+class BoxPrior(elfi.Distribution):
+    """a user-written bounded prior that implements `rvs` and `pdf` only (its log density is the inherited log(pdf))"""
+
+    @classmethod
+    def rvs(this, lo, width, size=1, random_state=None):
+        return ss.uniform.rvs(lo, width, size=size, random_state=random_state)
+
+    @classmethod
+    def pdf(this, x, lo, width):
+        return ss.uniform.pdf(x, lo, width)
+
+
 def make_model(kind, dim):
     m = elfi.ElfiModel(name='smc')
-    if kind == 'uniform':
+    if kind == 'custom':
+        ps = [elfi.Prior(BoxPrior, 0.3, 1.0, model=m, name='t%d' % i) for i in range(dim)]
+    elif kind == 'uniform':
         ps = [elfi.Prior('uniform', -1, 3, model=m, name='t%d' % i) for i in range(dim)]
     elif kind == 'normal':
         ps = [elfi.Prior('norm', 0.5, 1.5, model=m, name='t%d' % i) for i in range(dim)]
@@ -62,6 +76,8 @@ def make_model(kind, dim):
 
 def prior_logpdf(kind, theta):
     theta = np.atleast_2d(theta)
+    if kind == 'custom':
+        return np.sum(ss.uniform.logpdf(theta, 0.3, 1.0), axis=1)
     if kind == 'uniform':
         return np.sum(ss.uniform.logpdf(theta, -1, 3), axis=1)
     if kind == 'normal':
@@ -83,7 +99,7 @@ def gm_logpdf(theta, means, cov, w):
 
 
 def gen_case(rng):
-    kind = rng.choice(['uniform', 'normal', 'hier', 'hier-scale'])
+    kind = rng.choice(['uniform', 'normal', 'hier', 'hier-scale', 'custom'])
     dim = 2 if kind.startswith('hier') else rng.randint(1, 2)
     calls = []
     for _ in range(rng.choice([1, 1, 2])):
@@ -242,6 +258,8 @@ def process(ctx, n):
             case['calls'] = [dict(c) for c in forced[i]]
             if i in (1, 2):
                 case.update(prior='hier-scale', dim=2)
+            else:
+                case.update(prior='custom', dim=1 + i % 2)         # a user-written bounded prior class with `pdf` only
         elif i == len(forced) + 3:               # first-round budget barely above n with a batch size that does not divide it
             case.update(n=10, b=7, calls=[dict(quantiles=[0.9, 0.5])])
         elif i < len(forced) + 3:                # unit weights, population size a power of two, dyadic quantile: the cumulative
